@@ -96,16 +96,31 @@ fn print_rule<W: Write>(
     Severity::Hint => return Ok(()),
     Severity::Off => unreachable!("turned-off rule should not have match."),
   };
-  let title = &rule.id;
-  let name = path.display();
+  // a workflow command is one line: data that can span lines (a captured text in the
+  // message) or hold a separator must be escaped, as the actions toolkit does
+  let title = escape_property(&rule.id);
+  let name = escape_property(&path.display().to_string());
   let line = m.start_pos().line() + 1;
   let end_line = m.end_pos().line() + 1;
-  let message = rule.get_message(&m);
+  let message = escape_data(&rule.get_message(&m));
   writeln!(
     writer,
     "::{level} file={name},line={line},endLine={end_line},title={title}::{message}"
   )?;
   Ok(())
+}
+
+/// escape the message of a workflow command
+/// see https://github.com/actions/toolkit/blob/main/packages/core/src/command.ts
+fn escape_data(s: &str) -> String {
+  s.replace('%', "%25")
+    .replace('\r', "%0D")
+    .replace('\n', "%0A")
+}
+
+/// escape a property (file, title) of a workflow command
+fn escape_property(s: &str) -> String {
+  escape_data(s).replace(':', "%3A").replace(',', "%2C")
 }
 
 #[cfg(test)]
